@@ -427,6 +427,17 @@ class CapWalker:
         self.out, self.rid, self.rel, self.qual, self.streams = out, rid, rel, qual, streams
         self.sites = 0
         self.reported = set()
+        self.status = {}
+
+    def report(self):
+        for site in sorted(self.status):
+            key, call, ok = self.status[site]
+            if ok:
+                self.out.ok(self.rid, key, pos(self.rel, call), "capacity for this byte established on every path")
+            else:
+                self.out.bad(self.rid, key, pos(self.rel, call),
+                             "unchecked byte write with no ensure_capacity/flush test since the last buffer-consuming call on some path (a later loop iteration included): "
+                             "when the 64 KiB buffer is exactly full here the bytearray index is out of range (IndexError) — the stream is lost")
 
     def calls_in_order(self, node):
         res = []
@@ -451,16 +462,12 @@ class CapWalker:
                 if m == "write_byte_no_check":
                     key = "%s/%s.write_byte_no_check" % (self.qual, recv)
                     site = (call.lineno, call.col_offset)
-                    if cap.get(recv, 0) >= 1:
+                    # judged over all passes (a loop is walked until its entry state is stable): covered only if covered every time
+                    ok_here = cap.get(recv, 0) >= 1
+                    if ok_here:
                         cap[recv] -= 1
-                        if site not in self.reported:
-                            self.out.ok(self.rid, key, pos(self.rel, call), "capacity for this byte established on every path")
-                    else:
-                        if site not in self.reported:
-                            self.out.bad(self.rid, key, pos(self.rel, call),
-                                         "unchecked byte write with no ensure_capacity/flush test since the last buffer-consuming call on some path: "
-                                         "when the 64 KiB buffer is exactly full here the bytearray index is out of range (IndexError) — the stream is lost")
-                    self.reported.add(site)
+                    prev = self.status.get(site)
+                    self.status[site] = (key, call, ok_here and (prev[2] if prev else True))
                     self.sites += 1
                     continue
                 if m in ("flush",):
@@ -554,6 +561,7 @@ def rule_py_capacity(out):
                 continue
             w = CapWalker(out, rid, rel, qual, streams)
             w.block(fn.body, {s: 0 for s in streams})
+            w.report()
 
 
 # ----------------------------------------------------------------------------------
@@ -1414,6 +1422,78 @@ def rule_py_trivially_serializable_set(out):
         out.undecided(rid, "anchor/is_trivially_serializable", rel, "no definition found")
 
 
+def rule_py_map_shape_by_schema(out):
+    rid = "PM2"
+    out.rule(rid, "_ndjson.py MapConverter: whether a map is a JSON object or an array of pairs is decided by the key converter (the schema), in to_json and in from_json alike — "
+                  "never by the keys or the JSON value at hand (an empty int-keyed map is `[]`, not `{}`)", 2)
+    tree, rel = parse_py(out, "_ndjson.py")
+    cls = classes(tree).get("MapConverter")
+    if cls is None:
+        out.undecided(rid, "anchor/MapConverter", rel, "class not found")
+        return
+    for mname in ("to_json", "from_json"):
+        fn = methods(cls).get(mname)
+        if fn is None:
+            out.undecided(rid, "MapConverter.%s" % mname, rel, "method not found")
+            continue
+        # the first `if` of the method whose body returns a dict comprehension / dict (the object form)
+        decided = None
+        for st in ast.walk(fn):
+            if isinstance(st, ast.If):
+                returns_dict = any(isinstance(r, ast.Return) and isinstance(r.value, (ast.DictComp, ast.Dict)) for b in st.body for r in ast.walk(b))
+                if returns_dict and decided is None:
+                    decided = st
+        if decided is None:
+            out.undecided(rid, "MapConverter.%s/object form" % mname, pos(rel, fn), "the branch that returns the JSON object form was not found")
+            continue
+        by_schema = any(isinstance(x, ast.Attribute) and x.attr == "_key_converter" for x in ast.walk(decided.test))
+        out.check(by_schema, rid, "MapConverter.%s/object form" % mname, pos(rel, decided), "chosen by self._key_converter",
+                  "the object form is chosen by `%s`, not by the key converter: an empty map (or one whose keys happen to be strings) takes the form of a string-keyed map, "
+                  "which the other languages' readers reject for this key type" % ast.unparse(decided.test)[:80])
+
+
+def rule_py_fixed_containers_have_no_length(out):
+    rid = "PS2"
+    out.rule(rid, "_binary.py FixedVectorSerializer / FixedNDArraySerializer: write and read go element by element through the element serializer (or as raw bytes): they "
+                  "neither write nor read a length, directly or by delegating to a serializer of a variable-length container", 2)
+    tree, rel = parse_py(out, "_binary.py")
+    cl = classes(tree)
+    variable = {"VectorSerializer", "DynamicNDArraySerializer", "NDArraySerializer", "MapSerializer", "StreamSerializer", "StringSerializer"}
+    n = 0
+    for cname in ("FixedVectorSerializer", "FixedNDArraySerializer"):
+        cls = cl.get(cname)
+        if cls is None:
+            out.undecided(rid, cname, rel, "class not found")
+            continue
+        # attributes of self bound to a variable-length serializer in __init__
+        bad_attrs = {}
+        init = methods(cls).get("__init__")
+        if init is not None:
+            for a in ast.walk(init):
+                if isinstance(a, ast.Assign) and len(a.targets) == 1 and isinstance(a.targets[0], ast.Attribute) and isinstance(a.value, ast.Call):
+                    f = a.value.func
+                    name = f.id if isinstance(f, ast.Name) else f.attr if isinstance(f, ast.Attribute) else ""
+                    if name in variable:
+                        bad_attrs[a.targets[0].attr] = name
+        for mname in ("write", "read", "write_numpy", "read_numpy"):
+            fn = methods(cls).get(mname)
+            if fn is None:
+                continue
+            n += 1
+            why = None
+            for c in ast.walk(fn):
+                if not isinstance(c, ast.Call) or not isinstance(c.func, ast.Attribute):
+                    continue
+                if c.func.attr in ("write_unsigned_varint", "read_unsigned_varint", "write_signed_varint", "read_signed_varint"):
+                    why = "calls %s" % c.func.attr
+                if isinstance(c.func.value, ast.Attribute) and c.func.value.attr in bad_attrs and c.func.attr in ("write", "read", "write_numpy", "read_numpy"):
+                    why = "delegates to a %s" % bad_attrs[c.func.value.attr]
+            out.check(why is None, rid, "%s.%s" % (cname, mname), pos(rel, fn), "no length on the wire",
+                      "%s.%s %s: a fixed-length container gets a length prefix that the C++ and MATLAB readers (and files written before) do not have" % (cname, mname, why))
+    if n == 0:
+        out.undecided(rid, "anchor/fixed containers", rel, "no write/read method found")
+
+
 def _outcomes(stmts):
     """how a statement list can end: subset of {'raise', 'return', 'fall', 'jump'}"""
     out = set()
@@ -1978,16 +2058,16 @@ def rule_py_refill_scope(out):
         out.undecided(rid, "CodedInputStream/buffer reads", rel, "no indexed buffer read found")
 
 RULES = {
-    "C14": [rule_py_trivially_serializable_set],
+    "C14": [rule_py_trivially_serializable_set, rule_py_fixed_containers_have_no_length],
     "C07": [rule_py_mixins_have_no_public_methods],
-    "C02": [rule_json_kinds, rule_ndjson_sentinel, rule_union_dispatch, rule_py_optional_identity, rule_py_fraction_padded, rule_py_row_major, rule_py_flags_names_only_when_complete],
+    "C02": [rule_json_kinds, rule_ndjson_sentinel, rule_union_dispatch, rule_py_optional_identity, rule_py_fraction_padded, rule_py_row_major, rule_py_flags_names_only_when_complete, rule_py_map_shape_by_schema],
     "C03": [rule_link, rule_py_wire_table, rule_py_capacity, rule_py_no_alias, rule_py_stream_blocks, rule_py_optional_identity, rule_ndjson_sentinel, rule_py_fraction_padded, rule_py_varint_constants, rule_py_length_prefix_measures_payload, rule_py_row_major, rule_py_flags_names_only_when_complete, rule_py_trivially_serializable_set],
     "C08": [rule_link],
     "C15": [rule_py_headers, rule_ndjson_key_order],
     "C16": [rule_py_eof, rule_py_refill_scope, rule_py_no_swallowed_eof],
-    "C17": [rule_py_stream_blocks, rule_py_no_alias],
+    "C17": [rule_py_stream_blocks, rule_py_no_alias, rule_py_capacity],
     "C04": [rule_py_headers, rule_py_write_order, rule_ndjson_key_order],
-    "C01": [rule_py_wire_table, rule_py_stream_blocks, rule_py_write_order, rule_py_no_alias, rule_py_varint_constants, rule_py_length_prefix_measures_payload, rule_py_trivially_serializable_set],
+    "C01": [rule_py_wire_table, rule_py_stream_blocks, rule_py_write_order, rule_py_no_alias, rule_py_varint_constants, rule_py_length_prefix_measures_payload, rule_py_trivially_serializable_set, rule_py_fixed_containers_have_no_length],
 }
 
 
